@@ -157,6 +157,8 @@ class Gen:
             if leaf:
                 return '"%s"' % r.choice(["a", "bc", "hello", "x y", "a", "bc", "hello", "x y", ""])
             k = r.randrange(4)
+            if k == 0 and self.inloop:
+                k = 1       # no concatenation inside loops (s = s + s doubles the value every time round)
             if k == 0:
                 return "%s + %s" % (self.atom(STR, d + 1), self.atom(STR, d + 1))
             if k == 1:
@@ -189,6 +191,8 @@ class Gen:
                 n = r.choice([1, 2, 3, 3, 4])
                 return "[" + " ".join(self.atom(el, d + 2) for _ in range(n)) + "]"
             k = r.randrange(4)
+            if k < 2 and self.inloop:
+                k = 2       # no concatenation / repetition inside loops (exponential growth)
             if k == 0:
                 return "%s + %s" % (self.atom(ty, d + 1), self.atom(ty, d + 1))
             if k == 1:
